@@ -78,6 +78,8 @@ impl Builder {
                 hash_keys: fresh_keys(r, nkeys),
                 via_json: false,
                 threads: nkeys > 1,
+                named: BTreeMap::new(),
+                clock_ns: None,
             },
             next_site: 0,
             next_var: 0,
